@@ -6,9 +6,10 @@ use crate::axecutor::Axecutor;
 use crate::helpers::errors::AxError;
 
 use crate::helpers::macros::calculate_r_rm;
-use crate::helpers::macros::calculate_rm_r;
 use crate::helpers::macros::fatal_error;
+use crate::helpers::operand::Operand;
 use crate::state::flags::*;
+use crate::state::registers::SupportedRegister;
 
 impl Axecutor {
     pub(crate) fn mnemonic_movzx(&mut self, i: Instruction) -> Result<(), AxError> {
@@ -24,15 +25,26 @@ impl Axecutor {
         }
     }
 
+    /// Destination register and zero-extended value of the r/m8 source (register or memory)
+    fn movzx_rm8_operands(&mut self, i: Instruction) -> Result<(SupportedRegister, u64), AxError> {
+        let (dest, src) = self.instruction_operands_2(i)?;
+        let value = match src {
+            Operand::Memory(m) => self.mem_read_8(self.mem_addr(m))?,
+            Operand::Register(r) => self.reg_read_8(r)?,
+            _ => fatal_error!("Invalid source operand {:?} for MOVZX r, r/m8", src),
+        };
+
+        Ok((dest.into(), value))
+    }
+
     /// MOVZX r16, r/m8
     ///
     /// o16 0F B6 /r
     fn instr_movzx_r16_rm8(&mut self, i: Instruction) -> Result<(), AxError> {
         debug_assert_eq!(i.code(), Movzx_r16_rm8);
 
-        calculate_rm_r![u16f; u8; self; i; |_, s| {
-            (s as u16, 0)
-        }; (set: FLAGS_UNAFFECTED; clear: 0)]
+        let (dest, value) = self.movzx_rm8_operands(i)?;
+        self.reg_write_16(dest, value)
     }
 
     /// MOVZX r32, r/m8
@@ -41,9 +53,8 @@ impl Axecutor {
     fn instr_movzx_r32_rm8(&mut self, i: Instruction) -> Result<(), AxError> {
         debug_assert_eq!(i.code(), Movzx_r32_rm8);
 
-        calculate_rm_r![u32f; u8; self; i; |_, s| {
-            (s as u32, 0)
-        }; (set: FLAGS_UNAFFECTED; clear: 0)]
+        let (dest, value) = self.movzx_rm8_operands(i)?;
+        self.reg_write_32(dest, value)
     }
 
     /// MOVZX r64, r/m8
@@ -52,9 +63,8 @@ impl Axecutor {
     fn instr_movzx_r64_rm8(&mut self, i: Instruction) -> Result<(), AxError> {
         debug_assert_eq!(i.code(), Movzx_r64_rm8);
 
-        calculate_rm_r![u64f; u8; self; i; |_, s| {
-            (s as u64, 0)
-        }; (set: FLAGS_UNAFFECTED; clear: 0)]
+        let (dest, value) = self.movzx_rm8_operands(i)?;
+        self.reg_write_64(dest, value)
     }
 
     /// MOVZX r32, r/m16
